@@ -1,4 +1,4 @@
-(* C09 — property theorems for the code as it is after fixes 1f61a03 and 4ce6577 (statements only; proofs in Proofs_*.v). *)
+(* C09 — property theorems for the code as it is after fixes 1f61a03, 4ce6577 and 3c40407 (statements only; proofs in Proofs_*.v). *)
 From Sdns Require Import Common.Base Gen.C09 C09.Model C09.Proofs_Maps C09.Proofs_Rev C09.Proofs_Step C09.Proofs_Refute C09.Proofs_Prov C09.Proofs_Thm C09.Proofs_Hist C09.Proofs_Live C09.Proofs_Wf.
 Open Scope N_scope.
 
@@ -118,14 +118,16 @@ Theorem corrupt_tombstones_fails_closed :
 Proof. exact unreadable_store_fails_closed_lemma. Qed.
 Print Assumptions corrupt_tombstones_fails_closed.
 
-(* missing_90d *)
+(* missing_90d: a trusted anchor that is still published, or merely disappears (for at most 90 days), stays
+   trusted and is recorded as Valid / Missing — provided no REVOKE-flagged form of its key material is in
+   the response (since 3c40407 the revocation of ANY form of a public key withholds every entry of it) *)
 Theorem missing_90d :
   forall (tag : key -> N) live cfg d now keys sigs fl ksk2 tombs2 t a,
     prefetch tag live cfg d now fl = Some (ksk2, tombs2) ->
     authenticate tag (trusted_keys ksk2) keys sigs = AuthFull ->
     let fm := fetched_map tag keys in
     lookup t ksk2 = Some a -> is_trusted_st a = true ->
-    (forall t' k, lookup t' fm = Some k -> is_rev k = true -> same_except_revoke (ta_key a) k = false) ->
+    (forall t' k, lookup t' fm = Some k -> is_rev k = true -> k_mat k <> ta_mat a) ->
     (f_twrite fl = false \/ f_swrite fl = false) ->
     (fm_has fm t a = false -> ta_st a = SMissing -> (now - ta_fs a <= hold_rem)%Z) ->
     let r := autota tag live cfg d now (FResp keys sigs) fl in
@@ -136,28 +138,30 @@ Print Assumptions missing_90d.
 
 (* ---------------------------------------------------------------- phase 3 *)
 
-(* The accepting run itself publishes no key of the revoked material, provided all entries of that
-   material in the pre-fetch map sit under one tag (one flags value per public key).  With
-   revocation_permanent this gives: from the accepting run on, never again. *)
+(* The accepting run itself publishes no key of the revoked material — no hypothesis (3c40407:
+   finalRootKeys skips every entry of tombstoned material; the former one-tag hypothesis and its
+   counterexample, one public key under two flags values, are now Example dualflags_sibling_withheld). *)
 Theorem accepted_revocation_immediate :
-  forall (tag : key -> N) live cfg d now fe fl ksk2 tombs2 m t0,
-    prefetch tag live cfg d now fl = Some (ksk2, tombs2) ->
-    (forall t a, In (t, a) ksk2 -> ta_mat a = m -> t = t0) ->
+  forall (tag : key -> N) live cfg d now fe fl m,
     let r := autota tag live cfg d now fe fl in
     In m (r_revoked r) -> forall key, In key (r_live r) -> k_mat key <> m.
 Proof. exact accepted_revocation_immediate_lemma. Qed.
 Print Assumptions accepted_revocation_immediate.
 
-(* ... and that hypothesis is necessary: the same public key under flags 257 and 1 (two entries of one
-   material); the accepting run still publishes the flags-1 form, for that one run.  Replayed on the Go
-   code (driver kind dualflags, known finding). *)
-Theorem accepted_revocation_immediate_refuted :
-  exists tag s now fe key,
-    let r := run_of tag s now fe no_faults in
-    In 1 (r_revoked r) /\ In key (r_live r) /\ k_mat key = 1 /\
-    ~ In key (s_live (step tag (step tag s (ERun now fe no_faults)) (ERun (now + 1)%Z FErr no_faults))).
-Proof. exact accepted_revocation_immediate_needs_one_tag. Qed.
-Print Assumptions accepted_revocation_immediate_refuted.
+(* "A key whose self-signed revocation was accepted is never published as a trust anchor again": immediate
+   and permanent in one statement.  Premises as revocation_permanent (the run accepted the revocation of m
+   and at least one file replacement landed — complete run, or crash after k >= 1 replacements); then NO
+   key of material m is live after that run / after the restart following that crash, nor after any later
+   history of runs, crashes and restarts — no hypothesis on faults, tag function, configurations, clocks. *)
+Theorem revocation_never_again :
+  forall (tag : key -> N) (m : N) (s : sys) now fe fl,
+    In m (r_revoked (run_of tag s now fe fl)) ->
+    forall s1,
+    ((s1 = step tag s (ERun now fe fl) /\ r_writes (run_of tag s now fe fl) <> []) \/
+     (exists k cfg' tr sr, s1 = step tag s (ECrash now fe fl k cfg' tr sr) /\ firstn k (r_writes (run_of tag s now fe fl)) <> [])) ->
+    forall h key, In key (s_live (exec tag s1 h)) -> k_mat key <> m.
+Proof. exact revocation_never_again_lemma. Qed.
+Print Assumptions revocation_never_again.
 
 (* Liveness of revocation: a REVOKE-flagged, self-signed form K' of a trusted anchor K, present in the
    response (not shadowed by another key of the same tag), material not yet on record, IS accepted —
